@@ -13,6 +13,15 @@ one 1-D array, as one 5-D array, as five broadcastable axes and as scalars
 with a vector of azimuths. A line of sight is a direction: every call with
 array arguments is repeated with (dx, dy, dz) scaled by LOS_SCALES and must
 return the same angles.
+
+Part "repr": the arguments of both functions in the representations of
+c07_common.REPRS (Python int, int64 arrays, float32 scalars and arrays), one
+argument at a time and all together, on a lattice of values that are exact in
+the representation (REPR_AXES). geocentricposlos2cart: as above (position
+against the closed form, then the round trip). cartposlos2geocentric: called
+with the closed-form cartesian position and a line of sight of length
+LOS_LENGTH, both rounded to the representation, and compared with the atan2
+forms of c07_ref.cart_to_poslos evaluated on these rounded values.
 """
 import itertools
 
@@ -20,7 +29,9 @@ import numpy as np
 
 from mc import driver
 from checks import c07_ref as ref
-from checks.c07_common import LATTICES, compare, same
+from checks.c07_common import (LATTICES, REPR_MODES, as_float64, compare,
+                                exact, quantize, represent,
+                                representation_key, same, subsets)
 
 RADII = [6.36e6, 6.3781e6, 7.3781e6]
 # The main lattice stays >= 1 deg away from zenith/nadir and from the meridian
@@ -43,6 +54,19 @@ MERIDIAN_AZIMUTHS = [0.0, 180.0]
 NEAR_ZENITHS = {"quick": [0.01, 179.9],
                 "thorough": [0.01, 0.1, 179.9, 179.99]}
 LOS_SCALES = (1e-3, 7.0)
+# r, lat, lon, za, aa of the part "repr": whole numbers and halves, exact in
+# float32; the integer representations take the whole-numbered ones
+REPR_AXES = {
+    "quick": ([6378137.0, 7000000.0], [-60.0, 0.0, 30.5],
+              [-180.0, -90.5, 90.0, 180.0], [30.0, 90.0, 150.5],
+              [-90.5, 45.0, 135.0]),
+    "thorough": ([6360000.0, 6378137.0, 7000000.0, 7378100.0],
+                 [-88.0, -60.0, 0.0, 30.5, 75.0],
+                 [-180.0, -90.5, 0.5, 90.0, 135.0, 180.0],
+                 [10.0, 30.0, 90.0, 150.5, 170.0],
+                 [-170.0, -90.5, 10.0, 45.0, 135.0]),
+}
+LOS_LENGTH = 1000   # whole-numbered components keep the direction to 0.06 deg
 K_NEAR = 64     # roundings of size eps entering cos(aa), see near_units()
 
 
@@ -58,6 +82,7 @@ def shards(tier, seed):
             for shape in ("flat", "grid", "axes")]
     out += [("poslos", tier, part, i, None) for i in range(len(RADII))
             for part in ("aa-vector", "meridian", "near-zenith")]
+    out += [("poslos", tier, "repr", i, None) for i in range(len(REPR_MODES))]
     return out
 
 
@@ -74,8 +99,28 @@ def near_units(za, aa):
     return ("m", "deg", "deg", "los", (tol, "deg", True))
 
 
+def repr_blocks(tier, rep, form):
+    """Five spherical arguments (forward + round trip) and six cartesian
+    ones (inverse against the oracle) with `rep` at every subset position."""
+    sph = tuple(np.array(c) for c in zip(*itertools.product(
+        *[exact(rep, axis) for axis in REPR_AXES[tier]])))
+    cart = [quantize(rep, np.asarray(c, dtype=np.float64)) for c in
+            ref.geocentric_to_cart(*sph[:3])
+            + tuple(LOS_LENGTH * d for d in ref.los_to_cart(*sph[1:]))]
+    # lon = +-180 coincide once rounded
+    cart = tuple(np.array(c) for c in zip(*dict.fromkeys(zip(*cart))))
+    for tag, columns in (("sph", sph), ("cart", cart)):
+        for which in subsets(len(columns)):
+            for k, args in enumerate(represent(columns, which, rep, form)):
+                yield ("%s/%s/%d" % (tag, "+".join(map(str, which)), k),
+                       args, True)
+
+
 def blocks(tier, shape, i, j):
     """Yields (label, argument tuple, nontrivial)."""
+    if shape == "repr":
+        yield from repr_blocks(tier, *REPR_MODES[i])
+        return
     radii, lats, lons, zeniths, azimuths = axes(tier)
     if shape == "scalar":
         for k, point in enumerate(itertools.product(
@@ -138,8 +183,25 @@ def los_scales(args):
     return (1.0,) + (LOS_SCALES if np.broadcast(*args).ndim else ())
 
 
+def check_cart(args):
+    """cartposlos2geocentric on x, y, z, dx, dy, dz against the oracle."""
+    expected = ref.cart_to_poslos(*args)
+    za, aa = expected[3:]
+    if not np.all((za >= 1) & (za <= 179) & (np.abs(aa) >= 1)
+                  & (np.abs(aa) <= 179)):
+        raise ref.OracleError("cartesian lattice point next to a singular "
+                              "direction")
+    back, exc = call("cartposlos2geocentric", args, 5)
+    bad = exc or compare(back, expected, NAMES, UNITS,
+                         np.broadcast(*args).shape, "cartposlos2geocentric")
+    return [bad] if bad else []
+
+
 def check(args, units=UNITS):
-    """List of violations (key, expected, observed, msg) of one block."""
+    """List of violations (key, expected, observed, msg) of one block of
+    five spherical (or, part "repr", six cartesian) arguments."""
+    if len(args) == 6:
+        return check_cart(args)
     shape = np.broadcast(*args).shape
     bad = []
     fwd, exc = call("geocentricposlos2cart", args, 6)
@@ -169,6 +231,16 @@ def check(args, units=UNITS):
     return bad
 
 
+def evaluate(shape, i, args):
+    """check(); in the part "repr" a violation that the same values given as
+    float64 do not produce is attributed to the representation."""
+    found = check(args, units_of(shape, args))
+    if found and shape == "repr" and not check(as_float64(args)):
+        found = [(representation_key(bad[0], REPR_MODES[i][0]),) + bad[1:]
+                 for bad in found]
+    return found
+
+
 def run_shard(shard):
     _, tier, shape, i, j = shard
     res = driver.ShardResult()
@@ -176,9 +248,8 @@ def run_shard(shard):
         res.case(nontrivial=nontrivial)
         res.count("poslos_point_comparisons", len(los_scales(args))
                   * int(np.prod(np.broadcast(*args).shape, dtype=int)))
-        units = units_of(shape, args)
-        found = check(args, units)
-        if found and not same(check(args, units), found):
+        found = evaluate(shape, i, args)
+        if found and not same(evaluate(shape, i, args), found):
             res.error("NONDETERMINISM in poslos %r" % (shard,))
         for bad in found:
             res.violation(bad[0], dict(part="poslos", lattice=tier,
@@ -193,7 +264,7 @@ def replay(case):
     for label, args, _ in blocks(case["lattice"], case["shape"], case["i"],
                                  case["j"]):
         if label == case["block"]:
-            units = units_of(case["shape"], args)
-            return next((bad for bad in check(args, units)
+            return next((bad for bad in evaluate(case["shape"], case["i"],
+                                                 args)
                          if bad[0] == case["check"]), None)
     raise KeyError(case["block"])
